@@ -294,6 +294,9 @@ def shared_state(ctx):
                     elif r and r[0] == "ext" and r[1] == "sys" and isinstance(outer, ast.Attribute) and outer.attr == "modules":
                         if f.name != "_import_module_from_path":
                             bad.append((n, "sys.modules written outside the plugin import helper"))
+                    elif r and r[0] == "ext" and not _is_local(f, base.id) and base.id not in {a.arg for a in f.node.args.args}:
+                        # yaml.Dumper.ignore_aliases = ... / json.encoder.X = ...: configuration of a library object lives for the whole process
+                        bad.append((n, f"store into an object of an imported library ({r[1]}): {ast.unparse(t)[:60]} - changes every later use in the process"))
                     elif base.id == "cls" and f.kind == "classmethod":
                         bad.append((n, f"store into the class object: {ast.unparse(t)[:60]}"))
                     elif base.id == "self" and isinstance(outer, ast.Attribute):
